@@ -31,6 +31,11 @@ func TestPlan(t *testing.T) {
 		off += p.count
 	}
 	fmt.Println("seeds:", len(s.all), "ue targets:", len(ueTargets))
+	fmt.Println("chain-ue: streams", len(sysStreams), "targets", len(sysTargets), "positions", sysPositions, "per", sysPer, sysInfo)
+	for _, st := range sysStreams {
+		fmt.Printf("  %-60s %s sps %d B pps %d B slices %d seis %d %v\n", st.name, st.origin, len(st.sps), len(st.pps), len(st.slices), len(st.seis), st.features)
+	}
+	fmt.Println("sei-ue: seeds", len(seiUESeeds), "positions", seiUEPos, "per", seiUEPer)
 	for k, v := range s.byKind {
 		fmt.Printf("  %-12s %d\n", k, len(v))
 	}
